@@ -1,10 +1,14 @@
 package harness
 
 import (
-	"os"
+	"context"
+
 	"encoding/json"
 	"fmt"
+	metav1 "k8s.io/apimachinery/pkg/apis/meta/v1"
+	"os"
 	"reflect"
+	"sigs.k8s.io/karpenter/pkg/operator/options"
 	"sort"
 	"strconv"
 	"testing"
@@ -576,3 +580,100 @@ var propC13c = ev.Prop[c19bScenario]{
 }
 
 func TestC13c(t *testing.T) { ev.Run(t, propC13c) }
+
+// ---- C13d: "building it never panics for any NodePool that passes validation" ----------------------------------------
+//
+// NodePool template requirements of ARBITRARY shape (every operator incl. Gte / Lte, 0-3 values that are integers,
+// negative, non-numeric, overflowing, padded; minValues) are offered to NodePool.RuntimeValidate; whatever it accepts is
+// turned into a NodeClaimTemplate, into scheduling requirements and back into node selector requirements.
+
+type c13dReq struct {
+	Key       string   `json:"key"`
+	Op        string   `json:"op"`
+	Values    []string `json:"values,omitempty"`
+	MinValues int      `json:"minValues,omitempty"`
+}
+
+type c13dScenario struct {
+	Reqs []c13dReq `json:"reqs"`
+}
+
+func drawC13d(t *rapid.T) *c13dScenario {
+	s := &c13dScenario{}
+	vals := []string{"0", "1", "5", "42", "-1", "a", "1.5", "007", "", "9223372036854775807", "9223372036854775808", "zone-a", "spot", "on-demand", "amd64"}
+	for i := 0; i < rapid.IntRange(1, 4).Draw(t, "nReqs"); i++ {
+		r := c13dReq{Key: rapid.SampledFrom([]string{"ex.io/rank", "ex.io/rank", "ex.io/tier", corev1.LabelTopologyZone, v1.CapacityTypeLabelKey, corev1.LabelArchStable, sim.LabelGen}).Draw(t, "key"),
+			Op: rapid.SampledFrom([]string{"In", "NotIn", "Exists", "DoesNotExist", "Gt", "Lt", "Gte", "Lte", "Gt", "Lt", "Gte", "Lte"}).Draw(t, "op")}
+		for j := 0; j < rapid.SampledFrom([]int{0, 1, 1, 1, 2, 3}).Draw(t, "nValues"); j++ {
+			r.Values = append(r.Values, rapid.SampledFrom(vals).Draw(t, "value"))
+		}
+		if dpct(t, 15, "minValues") {
+			r.MinValues = rapid.IntRange(1, 3).Draw(t, "minValuesV")
+		}
+		s.Reqs = append(s.Reqs, r)
+	}
+	return s
+}
+
+func execC13d(s *c13dScenario, c *ev.Ctx) {
+	np := &v1.NodePool{ObjectMeta: metav1.ObjectMeta{Name: "p0", UID: "pool-uid-0"}}
+	np.Spec.Template.Spec.NodeClassRef = sim.NodeClassRef()
+	np.Spec.Template.Spec.ExpireAfter = v1.MustParseNillableDuration("Never")
+	for _, r := range s.Reqs {
+		e := v1.NodeSelectorRequirementWithMinValues{Key: r.Key, Operator: corev1.NodeSelectorOperator(r.Op), Values: r.Values}
+		if r.MinValues > 0 {
+			e.MinValues = ptrTo(r.MinValues)
+		}
+		np.Spec.Template.Spec.Requirements = append(np.Spec.Template.Spec.Requirements, e)
+	}
+	ctx := options.ToContext(context.Background(), sim.DefaultOptions())
+	if err := np.DeepCopy().RuntimeValidate(ctx); err != nil {
+		c.Class("rejected_by_validation")
+		return
+	}
+	c.Class("accepted_by_validation")
+	bounded := false
+	for _, r := range s.Reqs {
+		switch r.Op {
+		case "Gt", "Lt", "Gte", "Lte":
+			bounded = true
+			c.Class("accepted:" + r.Op)
+			// the documented rule for the numeric operators: exactly one value, a non-negative integer
+			ok := len(r.Values) == 1
+			if ok {
+				n, err := strconv.Atoi(r.Values[0])
+				ok = err == nil && n >= 0
+			}
+			if !ok {
+				c.Violate("validation:accepts-malformed-bound:"+r.Op, "RuntimeValidate accepts requirement %s %s %q, which is not a single non-negative integer: the requirement built from it admits something else than the manifest says", r.Key, r.Op, r.Values)
+			}
+		}
+	}
+	func() {
+		defer func() {
+			if p := recover(); p != nil {
+				c.Violate("build:panic", "a NodePool that passes RuntimeValidate makes NewNodeClaimTemplate / requirement conversion panic: %v (requirements %+v)", p, s.Reqs)
+			}
+		}()
+		nct := pscheduling.NewNodeClaimTemplate(np)
+		_ = nct.Requirements.NodeSelectorRequirements()
+		for _, r := range nct.Requirements {
+			_ = r.Any()
+			_ = r.String()
+		}
+		reqs := scheduling.NewNodeSelectorRequirementsWithMinValues(np.Spec.Template.Spec.Requirements...)
+		_ = reqs.NodeSelectorRequirements()
+	}()
+	c.NTIf(bounded)
+	c.Sample(map[string]any{"reqs": len(s.Reqs)})
+}
+
+var propC13d = ev.Prop[c13dScenario]{
+	ID: "C13", Test: "TestC13d",
+	Rule: "rapid draws 1-4 NodePool template requirements of arbitrary shape (In / NotIn / Exists / DoesNotExist / Gt / Lt / Gte / Lte over custom and well-known keys, 0-3 values from integers, negative, non-numeric, fractional, zero-padded, empty, MaxInt64, MaxInt64+1, minValues); " +
+		"oracle: if NodePool.RuntimeValidate accepts the pool, (1) every numeric-operator requirement carries exactly one non-negative integer (the documented rule), (2) NewNodeClaimTemplate, the conversion to scheduling requirements and back, Any() and String() do not panic; " +
+		"non-trivial = the accepted pool carries a numeric-operator requirement",
+	Draw: drawC13d, Exec: execC13d, ReplayTries: 1,
+}
+
+func TestC13d(t *testing.T) { ev.Run(t, propC13d) }
